@@ -211,6 +211,102 @@ fn all_containers(bytes: &[u8], kvs: &[Kv], version: u64, auts: &[TableDfa], mma
 /// Light variant for large families: every version, shared layout, one
 /// container; stream, len, verify kind, get of every key and of its last-byte
 /// neighbours, a lower-bound range at a sample of keys.
+/// Wide nodes with gaps between labels (the C03/C04 gap family) written by the
+/// reference encoder in versions 1, 2 and 3 and read by the real reader.
+/// parts: 1 = ranges with every byte as one-/two-byte lower and upper bound,
+/// 2 = the same bounds through search / search_with_state (AlwaysMatch and a
+/// Subsequence), 4 = get_key for every value of the map re-valued
+/// monotonically.
+pub fn run_gaps_versions(n: usize, variant: usize, depth: usize, parts: u8) -> Result<u64, String> {
+    use fst::automaton::{AlwaysMatch, Subsequence};
+    use fst::{IntoStreamer, Streamer};
+    let base = super::c04::gap_kvs(n, variant, depth);
+    let mono: Vec<Kv> = base.iter().enumerate().map(|(i, (k, _))| (k.clone(), 2 * i as u64 + 1)).collect();
+    let mut cnt = 0u64;
+    for version in [1u64, 2, 3] {
+        for kvs in [&base, &mono] {
+            if std::ptr::eq(kvs, &mono) && parts & 4 == 0 {
+                continue;
+            }
+            let bytes = codec::encode(kvs, &opts(version, Layout::Shared, false));
+            let r = guard(|| {
+                let f = Fst::new(&bytes[..]).map_err(|e| format!("open failed: {:?}", e))?;
+                let mut c = 0u64;
+                let collect = |mut s: fst::raw::Stream<'_, _>| -> Vec<Kv> {
+                    let mut v = vec![];
+                    while let Some((k, o)) = s.next() {
+                        v.push((k.to_vec(), o.value()));
+                        if v.len() > 100_000 {
+                            break;
+                        }
+                    }
+                    v
+                };
+                if std::ptr::eq(kvs, &mono) {
+                    for v in 0..=(2 * kvs.len() as u64 + 2) {
+                        c += 1;
+                        let want = kvs.iter().find(|x| x.1 == v).map(|x| x.0.clone());
+                        if f.get_key(v) != want {
+                            return Err(format!("get_key({}) = {:?}, expected {:?}", v, f.get_key(v).map(|k| key_str(&k)), want.map(|k| key_str(&k))));
+                        }
+                    }
+                    return Ok(c);
+                }
+                for b in 0..=255u8 {
+                    let bound: Vec<u8> = if depth == 1 { vec![b'p', b] } else { vec![b] };
+                    let bound2: Vec<u8> = bound.iter().cloned().chain([b'x']).collect();
+                    for bk in [&bound, &bound2] {
+                        for (kind, keep) in [
+                            ("ge", Box::new(|k: &[u8]| k >= &bk[..]) as Box<dyn Fn(&[u8]) -> bool>),
+                            ("gt", Box::new(|k: &[u8]| k > &bk[..])),
+                            ("le", Box::new(|k: &[u8]| k <= &bk[..])),
+                            ("lt", Box::new(|k: &[u8]| k < &bk[..])),
+                        ] {
+                            let want: Vec<Kv> = kvs.iter().filter(|x| keep(&x.0)).cloned().collect();
+                            if parts & 1 != 0 {
+                                let rb = f.range();
+                                let rb = match kind { "ge" => rb.ge(bk), "gt" => rb.gt(bk), "le" => rb.le(bk), _ => rb.lt(bk) };
+                                c += 1;
+                                let got = collect(rb.into_stream());
+                                if got != want {
+                                    return Err(format!("range().{}({}) gave {} items, expected {}", kind, key_str(bk), got.len(), want.len()));
+                                }
+                            }
+                            if parts & 2 != 0 {
+                                let sb = f.search(AlwaysMatch);
+                                let sb = match kind { "ge" => sb.ge(bk), "gt" => sb.gt(bk), "le" => sb.le(bk), _ => sb.lt(bk) };
+                                c += 1;
+                                let got = collect(sb.into_stream());
+                                if got != want {
+                                    return Err(format!("search(AlwaysMatch).{}({}) gave {} items, expected {}", kind, key_str(bk), got.len(), want.len()));
+                                }
+                                let wantx: Vec<Kv> = want.iter().filter(|x| x.0.contains(&b'x')).cloned().collect();
+                                let sub = Subsequence::new("x");
+                                let wb = f.search_with_state(&sub);
+                                let wb = match kind { "ge" => wb.ge(bk), "gt" => wb.gt(bk), "le" => wb.le(bk), _ => wb.lt(bk) };
+                                let mut ws = wb.into_stream();
+                                let mut gotx: Vec<Kv> = vec![];
+                                while let Some((k, o, _)) = ws.next() {
+                                    gotx.push((k.to_vec(), o.value()));
+                                }
+                                c += 1;
+                                if gotx != wantx {
+                                    return Err(format!("search_with_state(Subsequence(x)).{}({}) gave {} items, expected {}", kind, key_str(bk), gotx.len(), wantx.len()));
+                                }
+                            }
+                        }
+                    }
+                }
+                Ok(c)
+            })
+            .and_then(|x| x)
+            .map_err(|e| format!("version-{} file with a node of {} spread labels (layout {}, depth {}): {}", version, n, variant, depth, e))?;
+            cnt += r;
+        }
+    }
+    Ok(cnt)
+}
+
 fn ladder_kvs(l: usize) -> Vec<Kv> {
     vec![(vec![b'a'; l], 77), (b"b".to_vec(), 3), (b"bc".to_vec(), 1 << 40)]
 }
@@ -456,6 +552,7 @@ pub fn replay(case: &Value) -> Result<String, String> {
             let mut st = Stats::default();
             run_model_light(&kvs_from(&case["kvs"]), &mut st).map(|n| format!("{} queries agree", n))
         }
+        "gapsv" => run_gaps_versions(case["n"].as_u64().unwrap() as usize, case["variant"].as_u64().unwrap() as usize, case["depth"].as_u64().unwrap() as usize, 7).map(|n| format!("{} queries agree", n)),
         "light-ladder" => {
             let mut st = Stats::default();
             let l = case["len"].as_u64().unwrap() as usize;
@@ -489,7 +586,7 @@ fn do_model(kvs: &[Kv], auts: &[TableDfa], mmap: bool, st: &mut Stats, rep: &Rep
 pub fn plan(tier: Tier) -> Plan {
     let mut p = Plan::new("C10", "model_checking");
     let thorough = tier.thorough();
-    p.rule = "every model of U_ab3 (quick: <= 4 keys and every 7th larger subset; thorough: all) x patterns {0, 3i+1, boundary values} and the fan-out families (where version 1 has no index above 32 transitions) is encoded by an independent reference encoder in versions 1, 2, 3 x layouts {suffix-shared, trie, shared with multi-transition node form only}; each file is opened from Vec, &[u8], Cow (both), Box<[u8]>, Arc<[u8]> newtype, memmap2::Mmap, through map_data (also from readers of other files) and clone_from into readers of other files and versions, and node-by-node walk through the public node API/stream/len/get/contains_key (probe closure)/range (all kind pairs)/search (sampled 2-state DFAs)/union/intersection/is_superset/is_disjoint/verify are compared with the model (verify: ChecksumMissing for v1-2, Ok for v3); golden files committed under /verif/golden; gate grid: version field in {0,1,2,3,4,255,2^32,u64::MAX} x total length 0..40 x {zero-filled, well-formed}; 110 file lengths around each of 2^12..2^17 (quick: 2^12 and 2^16) in all three versions (stream, verify, get). non-trivial = encoded files with >= 2 keys".into();
+    p.rule = "every model of U_ab3 (quick: <= 4 keys and every 7th larger subset; thorough: all) x patterns {0, 3i+1, boundary values} and the fan-out families (where version 1 has no index above 32 transitions) is encoded by an independent reference encoder in versions 1, 2, 3 x layouts {suffix-shared, trie, shared with multi-transition node form only}; each file is opened from Vec, &[u8], Cow (both), Box<[u8]>, Arc<[u8]> newtype, memmap2::Mmap, through map_data (also from readers of other files) and clone_from into readers of other files and versions, and node-by-node walk through the public node API/stream/len/get/contains_key (probe closure)/range (all kind pairs)/search (sampled 2-state DFAs)/union/intersection/is_superset/is_disjoint/verify are compared with the model (verify: ChecksumMissing for v1-2, Ok for v3); golden files committed under /verif/golden; gate grid: version field in {0,1,2,3,4,255,2^32,u64::MAX} x total length 0..40 x {zero-filled, well-formed}; 110 file lengths around each of 2^12..2^17 (quick: 2^12 and 2^16) in all three versions (stream, verify, get). non-trivial = encoded files with >= 2 keys; the gap family (fan-outs 2..256, five label layouts) in all three versions: every byte as bound of range / search / search_with_state, and get_key on the monotone re-valuation".into();
     p.assumptions = vec![
         "no earlier fst release is available offline: 'as emitted by earlier builders' is represented by the documented layout differences (v1: no transition index; v1-2: no checksum) produced by the reference encoder".into(),
         "the reference encoder is bound to the code three ways: its v3 output is read by the real reader and passes the real verify(), every output is read back by the independent decoder, and the decoder reads the real builder's output (C09)".into(),
@@ -610,6 +707,20 @@ pub fn plan(tier: Tier) -> Plan {
             }
         }));
         }
+    }
+    for n in [2usize, 31, 32, 33, 34, 40, 64, 100, 255, 256] {
+        p.units.push(unit("wide-nodes-with-gaps-in-versions-1-2-3", format!("gaps versions fan-out {}", n), move |st, rep| {
+            for variant in 0..5usize {
+                for depth in 0..2usize {
+                    st.states += 3;
+                    st.nontrivial += 3;
+                    match run_gaps_versions(n, variant, depth, 7) {
+                        Ok(c) => { st.evals += c; st.transitions += c; st.count("gap_version_queries", c); }
+                        Err(msg) => rep.violation(format!("gaps versions fan-out {} variant {} depth {}", n, variant, depth), msg, json!({"kind": "gapsv", "gapsv": true, "n": n, "variant": variant, "depth": depth})),
+                    }
+                }
+            }
+        }));
     }
     p.units.push(unit("file-larger-than-16MiB-v1-v2-v3", "big dense".into(), move |st, rep| {
         let kvs = big_dense_family();
